@@ -225,6 +225,22 @@ def req_wire_check(w, method, id, params):
         raise Bad(('wire:request params', w))
 
 
+def poison(v):
+    """modify a deserialised container in place (what a middleware / method / caller may do with ITS message)"""
+    if isinstance(v, list):
+        v.append('POISON')
+    elif isinstance(v, dict):
+        v['POISON'] = 1
+
+
+def unaffected(what, f):
+    """messages deserialised later must not see what was done to an earlier message (no shared default / cached containers)"""
+    try:
+        f()
+    except Bad as b:
+        raise Bad(('aliasing:%s deserialised after an earlier message was modified in place differs (%s)' % (what, b.args[0][0]), b.args[0][1]))
+
+
 def run_request(c):
     params = mk_params(c['params'])
     x = Request(c['method'], params, c['id'])
@@ -235,6 +251,21 @@ def run_request(c):
             and y.is_notification == (c['id'] is None)):
         raise Bad(('fields:request', repr(y)))
     fixpoint(x, y)
+    poison(y.params)
+
+    def again():
+        z = Request.from_json(json.loads(text))
+        if not typed_eq(norm_params(z.params), norm_params(params)):
+            raise Bad(('fields:request params', repr(z)))
+        # ... and a different message of the same shape (no params member at all)
+        z0 = Request.from_json({'jsonrpc': '2.0', 'method': 'other', 'id': 5})
+        if norm_params(z0.params) is not None or 'params' in z0.to_json():
+            raise Bad(('fields:parameter-less request has params %r' % (z0.params,), None))
+        poison(z0.params)
+        z1 = BatchRequest.from_json([{'jsonrpc': '2.0', 'method': 'other'}, {'jsonrpc': '2.0', 'method': 'b', 'id': 1}])
+        if any(norm_params(r.params) is not None for r in z1):
+            raise Bad(('fields:parameter-less batch element has params', None))
+    unaffected('request', again)
 
 
 def resp_wire_check(w, c):
@@ -282,6 +313,11 @@ def run_response(c):
     y = Response.from_json(json.loads(text), error_cls=base)
     resp_obj_check(y, c, base)
     fixpoint(x, y)
+    if 'result' in c:
+        poison(y.result)
+    else:
+        poison(y.error.data)
+    unaffected('response', lambda: resp_obj_check(Response.from_json(json.loads(text), error_cls=base), c, base))
 
 
 def run_error(c):
@@ -292,6 +328,8 @@ def run_error(c):
     y = base.from_json(json.loads(text))
     check_error_obj(y, c, base)
     fixpoint(x, y)
+    poison(y.data)
+    unaffected('error', lambda: check_error_obj(base.from_json(json.loads(text)), c, base))
     # constructing through the registered class gives the same wire form
     cls = expected_cls(c['code'], None)
     if cls is not None:
@@ -318,6 +356,14 @@ def run_batchreq(c):
     if y.is_notification != all(e['id'] is None for e in elems):
         raise Bad(('fields:batch is_notification', None))
     fixpoint(x, y)
+    for r in y:
+        poison(r.params)
+
+    def again():
+        z = BatchRequest.from_json(json.loads(text))
+        if not all(typed_eq(norm_params(r.params), norm_params(mk_params(e['params']))) for r, e in zip(z, elems)):
+            raise Bad(('fields:batch request elements', repr(z)))
+    unaffected('batch request', again)
 
 
 def run_batchresp(c):
